@@ -372,6 +372,86 @@ fn run_decl_grid(rep: &mut Report, gates: &Gates) {
     rep.extra.insert("declaration_grid_cells".into(), json!(n));
 }
 
+/// text-first census of one cell: Ok(class) or a failure (kind, detail)
+pub fn census_cell(cell: &crate::textgrid::Cell, gates: &Gates) -> Result<&'static str, (String, String)> {
+    if gates.is_off("PROGRAM_EDGE_INPUTS") && cell.program_edge {
+        return Ok("text-grid.gated");
+    }
+    let fid = FileId::from_string("c01.st");
+    let parsed = match crate::panicx::catch(|| parse_program(&cell.text, &fid, &ParseOptions::default())) {
+        Ok(r) => r,
+        Err((loc, msg)) => return Err(("panic".into(), format!("parse_program panicked at {}: {}", loc, msg))),
+    };
+    match parsed {
+        // whether a legal combination belongs to the *supported* subset is decided by the AST-first
+        // grid; here a rejection is only counted
+        Err(_) => Ok(if cell.legal { "text-grid.legal.rejected" } else { "text-grid.illegal.rejected" }),
+        Ok(lib) => {
+            let ids = collect_ids(&lib);
+            match crate::textgrid::census(cell, &ids) {
+                Ok(()) => Ok(if cell.legal { "text-grid.legal.accepted-complete" } else { "text-grid.illegal.accepted-complete" }),
+                Err(e) => {
+                    if cell.legal {
+                        Err(("declaration-dropped".into(), e))
+                    } else {
+                        // outside the IEC grammar: leniency of the parser is not judged
+                        Ok("text-grid.illegal.accepted-with-drop")
+                    }
+                }
+            }
+        }
+    }
+}
+
+fn run_text_grid(rep: &mut Report, gates: &Gates, ctx: &Ctx) {
+    let items = crate::textgrid::cells();
+    let off = gates.off_list();
+    let n = items.len();
+    let rejected = std::sync::Mutex::new(Vec::<String>::new());
+    let out = run_items(&items, 8, |cell, stats| {
+        let g = Gates::with_off(off.clone());
+        stats.case(true, hash_str(&cell.text));
+        match census_cell(cell, &g) {
+            Ok(class) => {
+                stats.class(class);
+                if class == "text-grid.legal.rejected" && !cell.name.ends_with("+neighbour") {
+                    rejected.lock().unwrap().push(cell.name.clone());
+                }
+                if cell.name == "PROGRAM/VAR_INPUT RETAIN/inline-enum-init+neighbour" {
+                    let t = cell.text.clone();
+                    stats.sample(8, || json!({"text_grid": cell.name, "text": t}));
+                }
+                Ok(())
+            }
+            Err((kind, detail)) => Err(Failure::new("text-grid", &kind, format!("{}: {}", cell.name, detail), json!({"cell": cell.name, "text": cell.text}))),
+        }
+    });
+    rep.add(out);
+    rep.extra.insert("text_grid_cells".into(), json!(n));
+    let mut r = rejected.into_inner().unwrap();
+    r.sort();
+    rep.extra.insert("text_grid_legal_but_rejected".into(), json!(r));
+    // random multi-POU units composed from the same productions
+    let cases = ctx.tier.pick(30_000, 600_000);
+    let out = run_tapes("C01", ctx.seed ^ 0x7e47, ctx.threads, cases, 200, |tape, stats, counting| {
+        let g = Gates::with_off(off.clone());
+        let cell = crate::textgrid::random_unit(&mut Tape::new(tape));
+        if counting {
+            stats.case(cell.idents.len() > 3, hash_str(&cell.text));
+        }
+        match census_cell(&cell, &g) {
+            Ok(class) => {
+                if counting {
+                    stats.class(&class.replace("text-grid", "text-random"));
+                }
+                Ok(())
+            }
+            Err((kind, detail)) => Err(Failure::new("text-random", &kind, detail, json!({"text": cell.text}))),
+        }
+    });
+    rep.add(out);
+}
+
 fn run_grid(rep: &mut Report, gates: &Gates) {
     let items = grid_items();
     let off = gates.off_list();
@@ -396,11 +476,12 @@ pub fn run(ctx: &Ctx) -> i32 {
         ctx.tier,
         ctx.seed,
         "exploration",
-        "tape -> dsl library in the image of a faithful parser (gen_syntax) -> harness printer (alternative productions from the tape, mild layout) -> parse_program must return the same library (derived ==, plus case-sensitive identifier spellings in visit order). Exhaustive grids: all 225 ordered binary operator pairs x both association shapes, all unary/binary mixes, 225 operator triples x 3 shapes; every POU kind x VAR block class x qualifier x initialiser kind the grammar admits (alone and followed by a neighbour block). Non-trivial: >= 1 declaration and >= 3 distinct grammar productions exercised; distinct by hash of the program text.",
+        "tape -> dsl library in the image of a faithful parser (gen_syntax) -> harness printer (alternative productions from the tape, mild layout) -> parse_program must return the same library (derived ==, plus case-sensitive identifier spellings in visit order). Exhaustive grids: all 225 ordered binary operator pairs x both association shapes, all unary/binary mixes, 225 operator triples x 3 shapes; every POU kind x VAR block class x qualifier x initialiser kind the grammar admits (alone and followed by a neighbour block). Text-first census (for what the AST cannot hold): 3 POU kinds x 14 block headers x 24 declaration forms written as text (exhaustive grid + random multi-POU units); when the combination is derivable from IEC B.1.4.3/B.1.5 and the parser accepts it, every user identifier written must be the span of an Id of the library (nothing dropped). Non-trivial: >= 1 declaration and >= 3 distinct grammar productions exercised; distinct by hash of the program text.",
     );
     let gates = ctx.gates_for("C01");
     run_grid(&mut rep, &gates);
     run_decl_grid(&mut rep, &gates);
+    run_text_grid(&mut rep, &gates, ctx);
     rep.exhaustive = Some(false);
     rep.extra.insert("expression_grid_exhaustive".into(), json!(true));
     let cases = ctx.tier.pick(200_000, 3_000_000);
@@ -474,6 +555,18 @@ pub fn replay(ctx: &Ctx, v: &Value) -> i32 {
                 }
                 None => Err("grid item not found".into()),
             }
+        }
+        "text-grid" => {
+            let name = v["inputs"]["cell"].as_str().unwrap_or("");
+            match crate::textgrid::cells().into_iter().find(|c| c.name == name) {
+                Some(c) => census_cell(&c, &gates).map(|_| ()).map_err(|(k, d)| format!("{}: {}", k, d)),
+                None => Err("grid cell not found".into()),
+            }
+        }
+        "text-random" => {
+            let tape: Vec<u8> = v["tape"].as_array().map(|a| a.iter().map(|x| x.as_u64().unwrap_or(0) as u8).collect()).unwrap_or_default();
+            let cell = crate::textgrid::random_unit(&mut Tape::new(&tape));
+            census_cell(&cell, &gates).map(|_| ()).map_err(|(k, d)| format!("{}: {}", k, d))
         }
         "witness" => witness(&v["inputs"]),
         c => Err(format!("unknown check {}", c)),
